@@ -2,6 +2,9 @@
 """Regenerates the seeded-changes table of DESIGN.md section 11.6 from seeded/*/meta.json."""
 import json, glob, os, re
 NOTES = {
+ 'C16-r16-shared-copy-buffer-plain-readers': 'Strengthened: first missed; the concurrent exports now also go through ExportWith with a reader that has no WriteTo method.',
+ 'C18-r16-option-append-aliasing': 'Strengthened: first missed; a share of the reports takes its options from a longer list of which a prefix was used for another report before. The names functions are untouched by this change: the report check (C17) sees it.',
+ 'C10-r16-trimspace-name-bookkeeping': 'The vectors concerned are outside the acceptance language, so it is the acceptance check (C07) that reports them; C10 speaks of accepted vectors.',
  'C17-r14-env-report-shortcut-forgets-ms': 'Strengthened: first missed; reports are now also built for vectors with exactly one optional metric defined (every metric, every defined value, written alone or with the others spelled X).',
  'C09-r14-v2-base-remembers-last-score': 'The decoded fields stay right; what changes is the base / temporal score of the views after the environmental score was asked, which the score check of those views (C04) and the history check (C15) report.',
  'C16-r13-codetable-refresh-on-miss': 'Strengthened: first missed; the concurrent jobs now contain an invalid value code for every optional metric of both families (the miss path of every code lookup) next to a valid vector that carries every Modified metric.',
